@@ -32,7 +32,7 @@ CLAIMS = {
         "technique": "MIR census + dataflow (statics/unsafe/ambient-API census, hash-iteration neutralisation check)",
     },
     "C11": {
-        "text": "Structural decision that scale multiplies every length exactly once and nothing else: per fragment type, each length-typed field of the value returned by `scale` is `self.field x scale` (expression reconstructed from MIR, closures followed), other fields do not mention scale; Fragment/FragmentSpan dispatch covers all variants; every Fragment->Node conversion receives a value scaled on every call path (call-graph dominators); canvas size carries settings.scale once; Settings.scale is read nowhere else; default scale 8 and cell 1x2 constants. K7: code that runs on scaled values (Bounds::bounds, Node conversions) takes cell-unit constants only as factors of a scaled field and adds no absolute length.",
+        "text": "Structural decision that scale multiplies every length exactly once and nothing else: per fragment type, each length-typed field of the value returned by `scale` is `self.field x scale` (expression reconstructed from MIR, closures followed), other fields do not mention scale; Fragment/FragmentSpan dispatch covers all variants; every Fragment->Node conversion receives a value scaled on every call path (call-graph dominators); canvas size carries settings.scale once; Settings.scale is read nowhere else; default scale 8 and cell 1x2 constants. K7: code that runs on scaled values (Bounds::bounds, Node conversions) takes cell-unit constants only as factors of a scaled field and adds no absolute length. The tag/enclosure pass (FragmentTree and what it calls directly) uses no cell-unit constant at all.",
         "design_ref": "DESIGN.md section 4 C11",
         "note": "Decides the shape of the arithmetic, not f32 rounding; the Node conversions are assumed to emit the fields they are given (attribute mapping is checked for Rect under C05).",
         "technique": "MIR expression reconstruction + pattern rules, call-graph dominators, field read census",
@@ -56,13 +56,13 @@ CLAIMS = {
         "technique": "MIR sink census + grammar output-alphabet computation (interval sets) + constructor who-may-call census",
     },
     "C16": {
-        "text": "Structural decision of the legend/tag plumbing: rule template decoded from MIR instantiates to `.svgbob .NAME{ DECL }`, one rule per entry in entry order joined by newlines; the drawing receives only input[..legend_start] exactly when the legend parses and the parsed entries become the styles; identifier/tag/entry grammars (extracted pom combinators, PEG-faithful interpreter) accept and reject the statement's witnesses; tags are tried deepest-first (dominance), extend the class list instead of being kept as text. L5 `inside` is bounding-box containment: Fragment::can_fit is the conjunction of the four inclusive comparisons between self.bounds() and other.bounds() (truth table over the path conditions; order, early returns and strict complements accepted).",
+        "text": "Structural decision of the legend/tag plumbing: rule template decoded from MIR instantiates to `.svgbob .NAME{ DECL }`, one rule per entry in entry order joined by newlines; the drawing receives only input[..legend_start] exactly when the legend parses and the parsed entries become the styles; identifier/tag/entry grammars (extracted pom combinators, PEG-faithful interpreter) accept and reject the statement's witnesses; tags are tried deepest-first (dominance), extend the class list instead of being kept as text. L5 `inside` is bounding-box containment: Fragment::can_fit is the conjunction of the four inclusive comparisons between self.bounds() and other.bounds() (truth table over the path conditions; order, early returns and strict complements accepted). L6 the parsed legend entries are only appended to the stored list (no in-place rewrite, de-duplication, sorting). L7 = C10.I4 (box of line-like shapes).",
         "design_ref": "DESIGN.md section 4 C16",
         "note": "Does not decide what bounds() returns for each shape (C12/C05), float rounding inside can_fit's comparisons, nor which text fragments are merged before tag recognition.",
         "technique": "MIR expression patterns + dominators/control dependence + grammar witness interpretation",
     },
     "C17": {
-        "text": "Structural decision of line-ending / trailing-blank insensitivity: rows come from str::lines on the whole input; a cell is inserted only under !is_whitespace of the inserted character; the cell buffer cannot carry a row count; the legend parser input is CR-filtered (closure predicate read from MIR) or else the grammar accepts CRLF witnesses identically, and 192 witness legends with blanks before line ends parse to the canonical entries on the extracted grammar. W3 models the text preparation before the grammar from its source (string-pipeline evaluator, fail closed) and includes multi-line block witnesses (blanks/CR before line ends inside a block). W4 no quoted region of the row grammar line_parse reaches into trailing blanks: the extracted grammar gives the same regions with and without each of four blank suffixes on every row over {letter, blank, quote, backslash} up to length 5.",
+        "text": "Structural decision of line-ending / trailing-blank insensitivity: rows come from str::lines on the whole input; a cell is inserted only under !is_whitespace of the inserted character; the cell buffer cannot carry a row count; the legend parser input is CR-filtered (closure predicate read from MIR) or else the grammar accepts CRLF witnesses identically, and 192 witness legends with blanks before line ends parse to the canonical entries on the extracted grammar. W3 models the text preparation before the grammar from its source (string-pipeline evaluator, fail closed) and includes multi-line block witnesses (blanks/CR before line ends inside a block). W4 no quoted region of the row grammar line_parse reaches into trailing blanks: the extracted grammar gives the same regions with and without each of four blank suffixes on every row over {letter, blank, quote, backslash} up to length 5. W5 the step that locates the legend (C16.L2's decision, evaluated under C17) does not inspect what follows the marker on its line.",
         "design_ref": "DESIGN.md section 4 C17",
         "note": "Witness documents are a finite sample for the grammar clause (necessary condition); the drawing clause is by construction (str::lines + whitespace guard). Genuine defect repaired by fix: commit cc9a377.",
         "technique": "MIR control dependence + grammar interpretation of witness documents + ADT field census",
@@ -74,7 +74,7 @@ CLAIMS = {
         "technique": "table abstract evaluation over syntax-tree literals + MIR constant folding + model conformance rules",
     },
     "C09": {
-        "text": "Structural decision of run continuity and merge plumbing: every run character (9 ASCII, all box-drawing line glyphs) yields edge-to-edge segment(s) that join the neighbour's across the cell border into one straight line (exact rationals); Line::merge keeps extreme end points and ORs the dashed flag, can_merge = touching and both ends collinear, Fragment::merge dispatches (Line,Line) to it; contacts are built only from merge_fragment_spans = merge_recursive, which is a fixpoint (recursion while the item count shrinks, push only when unmerged). Line::merge returns Some exactly when can_merge(self, other): decided as a boolean function over the path conditions (value-only branches are free variables the result may not depend on).",
+        "text": "Structural decision of run continuity and merge plumbing: every run character (9 ASCII, all box-drawing line glyphs) yields edge-to-edge segment(s) that join the neighbour's across the cell border into one straight line (exact rationals); Line::merge keeps extreme end points and ORs the dashed flag, can_merge = touching and both ends collinear, Fragment::merge dispatches (Line,Line) to it; contacts are built only from merge_fragment_spans = merge_recursive, which is a fixpoint (recursion while the item count shrinks, push only when unmerged). Line::merge returns Some exactly when can_merge(self, other): decided as a boolean function over the path conditions (value-only branches are free variables the result may not depend on). FragmentSpan::merge returns Some exactly when Fragment::merge of the two fragments does.",
         "design_ref": "DESIGN.md section 4 C09",
         "note": "Does not decide util::is_collinear's float threshold nor the greedy merge order: the known split of long diagonals is outside the decided clause.",
         "technique": "table abstract evaluation + MIR expression/control-dependence rules + syntax-tree rule for the `||`",
@@ -86,13 +86,13 @@ CLAIMS = {
         "technique": "MIR expression patterns + field read census over the call graph + table abstract evaluation with partial evaluation of conditions",
     },
     "C13": {
-        "text": "Table clause for the circle catalogue: formulas of CircleArt (width, radius, centre, diameter, edge increment) pinned to the code; for each of the >= 22 drawings the edge case agrees with the left-most glyphs, radius = (n-1)/2 or n/2, horizontal extent equals the drawing's, every glyph's cell is within half a cell diagonal of the circle, centre near the vertical middle, diameter keys pairwise distinct; lookup uses the localised span and CIRCLES_SPAN stores unfilled circles built from centre()/radius(). T2 also: inside the per-entry closure of the four catalogue lookups only the outcome of is_subset_of decides.",
+        "text": "Table clause for the circle catalogue: formulas of CircleArt (width, radius, centre, diameter, edge increment) pinned to the code; for each of the >= 22 drawings the edge case agrees with the left-most glyphs, radius = (n-1)/2 or n/2, horizontal extent equals the drawing's, every glyph's cell is within half a cell diagonal of the circle, centre near the vertical middle, diameter keys pairwise distinct; lookup uses the localised span and CIRCLES_SPAN stores unfilled circles built from centre()/radius(). T2 also: inside the per-entry closure of the four catalogue lookups only the outcome of is_subset_of decides. CIRCLES_SPAN is collected from an un-adapted iteration over all of CIRCLE_MAP (no skip/filter/take, helpers inlined).",
         "design_ref": "DESIGN.md section 4 C13",
         "note": "Does not decide the run-time subset matching (that a placed drawing yields exactly one circle and nothing else).",
         "technique": "catalogue evaluation from syntax-tree literals + MIR/syntax conformance of the formulas",
     },
     "C14": {
-        "text": "Table clause decided by table abstract evaluation with exact rationals: every arrow-tagged polygon (ASCII entries in all eight directions and Unicode triangles) is filled, tagged away from the tested neighbour, has its tip on the axis of the neighbour's segment beyond the stub and its base straddling the axis; bullet circle literals map through merge_circle's thresholds (read from source, folded) to filled/open/big-open markers, each constructed marker variant has matching Display string, CSS rules, url(#id) and emitted <marker id> with the right fill class, marker-line class templates use the same prefixes and the marked end is the circle centre; every corner arc (33 today) has attached end points and its SVG centre on the inner side (axis-aligned corner for axis-parallel neighbours). T4: rounded outlines of every corner style are closed curves under cell-by-cell table evaluation (neighbourhood-complete family of 80 grids).",
+        "text": "Table clause decided by table abstract evaluation with exact rationals: every arrow-tagged polygon (ASCII entries in all eight directions and Unicode triangles) is filled, tagged away from the tested neighbour, has its tip on the axis of the neighbour's segment beyond the stub and its base straddling the axis; bullet circle literals map through merge_circle's thresholds (read from source, folded) to filled/open/big-open markers, each constructed marker variant has matching Display string, CSS rules, url(#id) and emitted <marker id> with the right fill class, marker-line class templates use the same prefixes and the marked end is the circle centre; every corner arc (33 today) has attached end points and its SVG centre on the inner side (axis-aligned corner for axis-parallel neighbours). T4: rounded outlines of every corner style are closed curves under cell-by-cell table evaluation (neighbourhood-complete family of 80 grids). T5: each bullet (* o O) next to each solid or dashed line character running towards it yields exactly one circle on the cell centre (filled for *, open for o/O, O bigger).",
         "design_ref": "DESIGN.md section 4 C14",
         "note": "Does not decide the run-time merge of polygon + line into marker lines nor arcs taken from the big-circle catalogue.",
         "technique": "table abstract evaluation (exact rational geometry, SVG arc semantics) + syntax-tree agreement rules (Display/CSS/marker ids) + MIR expression patterns",
@@ -110,7 +110,7 @@ CLAIMS = {
         "technique": "MIR expression patterns + framework-call census + reachability census",
     },
     "C04": {
-        "text": "Structural decision of text placement plumbing: interprocedural taint of byte lengths (String::len/str::len) never meets a cell coordinate, Cell::new or the cell width; every path of the two per-cell loops adds a fragment for the cell (must-pass-through on the CFG) with cell_text(ch) as last alternative and the iteration's own cell; cells are inserted at the plain enumerate indices guarded only by `ch != NUL && !whitespace`; text is anchored at a grid point of its start cell with unchanged content, cell_text sits at the origin of its own cell, absolute positions add the cell, merging concatenates in column order; wide characters are followed by width-1 NUL fillers which the escaping table drops. F4/F5: the column expansion of a character is conditional on nothing but the loops and width() being Some, and every column count uses the same width function. F6 CellText.content has three writers only (constructor, struct update, clone). F7 every character-table entry is inserted under the character its property stores (one insert per listed entry, no other writer) and Property::from_char looks the tables up under its own argument, so the text fallback `property.ch` is the input character.",
+        "text": "Structural decision of text placement plumbing: interprocedural taint of byte lengths (String::len/str::len) never meets a cell coordinate, Cell::new or the cell width; every path of the two per-cell loops adds a fragment for the cell (must-pass-through on the CFG) with cell_text(ch) as last alternative and the iteration's own cell; cells are inserted at the plain enumerate indices guarded only by `ch != NUL && !whitespace`; text is anchored at a grid point of its start cell with unchanged content, cell_text sits at the origin of its own cell, absolute positions add the cell, merging concatenates in column order; wide characters are followed by width-1 NUL fillers which the escaping table drops. F4/F5: the column expansion of a character is conditional on nothing but the loops and width() being Some, and every column count uses the same width function. F6 CellText.content has three writers only (constructor, struct update, clone). F7 every character-table entry is inserted under the character its property stores (one insert per listed entry, no other writer) and Property::from_char looks the tables up under its own argument, so the text fallback `property.ch` is the input character. F4 only the discriminants of next()/width() may decide the expansion (a test on the character or on the row is reported; a redundant test on the width value is evaluated).",
         "design_ref": "DESIGN.md section 4 C04",
         "note": "Which adjacent runs end up merged into one element depends on span grouping at run time and is not decided. Genuine defect repaired by fix: commit 73b59aa.",
         "technique": "MIR taint analysis (bytes vs columns) + must-pass-through on the CFG + expression patterns",
@@ -128,19 +128,19 @@ CLAIMS = {
         "technique": "MIR panic-site census with idiom discharge (control dependence, expression patterns, truth tables), Tarjan SCCs for recursion variants, grammar nullability analysis",
     },
     "C05": {
-        "text": "Attribute clause only: the rect emitted for an endorsed group spans min..max over both bound points of all fragments, is unfilled, dashed iff any fragment is dashed, rounded radius taken from an arc of the group; an endorsed group becomes FragmentSpan(group cells, rect); the rect element maps x,y,width,height,rx and the class flags from the fields. R1 acceptance implies corner coincidence; R2 the recognition region never compares whole lines/fragments or reads the dashed flag (style-blind recognition). R3 no coordinate is quantised in the recognition region and Line::has_endpoint - the corner test - is exact point equality of either end (boolean function). A3 the merge rules of C09.M1 evaluated under C05 (Line::merge merges exactly when can_merge).",
+        "text": "Attribute clause only: the rect emitted for an endorsed group spans min..max over both bound points of all fragments, is unfilled, dashed iff any fragment is dashed, rounded radius taken from an arc of the group; an endorsed group becomes FragmentSpan(group cells, rect); the rect element maps x,y,width,height,rx and the class flags from the fields. R1 acceptance implies corner coincidence; R2 the recognition region never compares whole lines/fragments or reads the dashed flag (style-blind recognition). R3 no coordinate is quantised in the recognition region and Line::has_endpoint - the corner test - is exact point equality of either end (boolean function). A3 the merge rules of C09.M1 evaluated under C05 (Line::merge merges exactly when can_merge). T1 sharp-cornered outlines (`+` with `-`/`~` edges and `|` sides, box-drawing) of widths 1..4 and 0..3 side rows are closed when evaluated cell by cell on the table model.",
         "design_ref": "DESIGN.md section 4 C05",
         "note": "NOT decided: recognition soundness/completeness (is_rect / is_rounded_rect on merged float geometry) — the core of C05, including the ladder case.",
         "technique": "MIR expression patterns with closure following",
     },
     "C06": {
-        "text": "Structural decision of translation plumbing: all four catalogue lookups compare the localised span and all four accepted fragments are re-offset by bounds().0; cell fragments are placed at their own cell; per fragment type every positional field of absolute_position is the same field translated by the cell and nothing else depends on the cell; enum/struct dispatch is complete; the cell translation primitives have the exact top-left +/- point shape (and fold correctly); Span::localize subtracts its own top-left. P1 also: the left-over span of a catalogue match is taken from the un-localised search span in all four siblings; P4 census of float comparisons against non-zero constants (no new absolute tolerance).",
+        "text": "Structural decision of translation plumbing: all four catalogue lookups compare the localised span and all four accepted fragments are re-offset by bounds().0; cell fragments are placed at their own cell; per fragment type every positional field of absolute_position is the same field translated by the cell and nothing else depends on the cell; enum/struct dispatch is complete; the cell translation primitives have the exact top-left +/- point shape (and fold correctly); Span::localize subtracts its own top-left. P1 also: the left-over span of a catalogue match is taken from the un-localised search span in all four siblings; P4 census of float comparisons against non-zero constants (no new absolute tolerance). P5 the row layout (StringBuffer::from and its helpers) never reads the length of the row built so far nor takes a remainder: columns after a character do not depend on the absolute column.",
         "design_ref": "DESIGN.md section 4 C06",
         "note": "Float effects of the geometric predicates at large offsets are not decided.",
         "technique": "MIR expression patterns + constant folding + sibling-branch cross-check",
     },
     "C10": {
-        "text": "Structural decision of span isolation: spans are consumed only by span.endorse(); Span::endorse takes only the span and nothing reachable from it (tables excluded) receives a CellBuffer or Settings; spans are the merge_recursive fixpoint of one span per cell under |dx|<=1 && |dy|<=1 adjacency; the cross-span pass cannot write geometry (FragmentTree.fragment written only by new, enclose* write css_tag/enclosing only); per-span results are never merged across spans. I2 demands the exact any-x-any is_adjacent shape of Span::can_merge (iterator or nested-loop form) with no additional deciding condition. I3 the functions that put the per-span results together (get_fragment_spans, endorse_to_fragment_spans, group_nodes_and_fragments and their private helpers) apply no pairwise relation (merge / can_merge / is_contacting ...) to the combined list.",
+        "text": "Structural decision of span isolation: spans are consumed only by span.endorse(); Span::endorse takes only the span and nothing reachable from it (tables excluded) receives a CellBuffer or Settings; spans are the merge_recursive fixpoint of one span per cell under |dx|<=1 && |dy|<=1 adjacency; the cross-span pass cannot write geometry (FragmentTree.fragment written only by new, enclose* write css_tag/enclosing only); per-span results are never merged across spans. I2 demands the exact any-x-any is_adjacent shape of Span::can_merge (iterator or nested-loop form) with no additional deciding condition. I3 the functions that put the per-span results together (get_fragment_spans, endorse_to_fragment_spans, group_nodes_and_fragments and their private helpers) apply no pairwise relation (merge / can_merge / is_contacting ...) to the combined list. I4 the bounding box of a line or an arc is spanned by its end points only (no radius / computed centre), so it cannot reach into another sub-diagram.",
         "design_ref": "DESIGN.md section 4 C10",
         "note": "Relies on C07 (immutable tables) and C12.M1 (canvas). Float equality effects inside one span are not decided.",
         "technique": "call-graph reachability with parameter-type census, field write census, MIR expression patterns, syntax pattern for the adjacency predicate",
